@@ -295,6 +295,15 @@ func genC14(t *core.Tape, tier string) *Scenario {
 	if byCancel {
 		sc.Notes["end_by_cancel"]++
 	}
+	if (p.Kind == KClient || p.Kind == KBidi) && len(p.ReqMsgs) > 1 && !p.protoRefused && t.Bool(1, 8, "unsendable.message") {
+		// one request message (not the first) cannot be marshalled: its Send
+		// fails on the client - with the codec's complaint while the call is
+		// live, with the end of the stream once the call is known to be over
+		sc.Clients[0].FailCodec = true
+		i := 1 + t.Choose(len(p.ReqMsgs)-1, "unsendable.which")
+		p.ReqMsgs[i] = append(append([]byte(nil), marshalFailMarker...), p.ReqMsgs[i]...)
+		sc.Notes["unsendable_later_message"]++
+	}
 	if !byCancel && t.Bool(1, 3, "live.ctx") {
 		// the caller's context is a server's request context: it can be
 		// cancelled, so the library watches it, but it outlives the call
@@ -460,9 +469,12 @@ func checkC14(w *World, st core.Status, r *RunResult) []Violation {
 			if op.Op != "send" || ex == nil {
 				continue
 			}
+			// a message the codec refuses, sent while the client cannot yet know
+			// that the call is over (no Receive has said so), fails on the codec
+			codecFirst := op.Err != nil && strings.Contains(op.Err.Error(), "cannot be marshalled") && !(recvErrStep >= 0 && op.Start > recvErrStep)
 			if ex.HandlerDoneStep >= 0 && op.Start > ex.HandlerDoneStep {
 				r.Probes["send_started_after_handler_returned"]++
-				if op.Err != nil && !errors.Is(op.Err, io.EOF) {
+				if op.Err != nil && !errors.Is(op.Err, io.EOF) && !codecFirst {
 					add("send-after-finish-wrong-error", fmt.Sprintf("Send after the handler finished failed with %v (want nil or an error wrapping io.EOF)", op.Err))
 				}
 			}
@@ -477,7 +489,7 @@ func checkC14(w *World, st core.Status, r *RunResult) []Violation {
 				r.Probes["send_after_stream_closed"]++
 				if op.Err == nil {
 					add("send-after-close-succeeded", "Send started after the stream was closed (transport closed the request body or Receive had failed) returned nil")
-				} else if !errors.Is(op.Err, io.EOF) {
+				} else if !errors.Is(op.Err, io.EOF) && !codecFirst {
 					add("send-after-close-wrong-error", fmt.Sprintf("Send after close failed with %v (want an error wrapping io.EOF)", op.Err))
 				}
 			}
